@@ -29,13 +29,13 @@ func (a *asm) bytes() []byte       { return a.b }
 
 const (
 	opSTOP, opADD, opMUL, opSUB, opDIV, opSDIV, opMOD, opSMOD, opADDMOD, opMULMOD, opEXP, opSIGNEXTEND = 0x00, 0x01, 0x02, 0x03, 0x04, 0x05, 0x06, 0x07, 0x08, 0x09, 0x0a, 0x0b
-	opLT, opGT, opSLT, opSGT, opEQ, opISZERO, opAND, opOR, opXOR, opNOT, opBYTE, opSHL, opSHR, opSAR       = 0x10, 0x11, 0x12, 0x13, 0x14, 0x15, 0x16, 0x17, 0x18, 0x19, 0x1a, 0x1b, 0x1c, 0x1d
-	opSHA3                                                                                                 = 0x20
-	opCALLDATALOAD, opCALLDATASIZE, opCALLDATACOPY, opCODESIZE, opCODECOPY                                 = 0x35, 0x36, 0x37, 0x38, 0x39
-	opRETURNDATASIZE, opRETURNDATACOPY                                                                     = 0x3d, 0x3e
-	opPOP, opMLOAD, opMSTORE, opMSTORE8, opJUMP, opJUMPI, opPC, opMSIZE, opGAS, opJUMPDEST                 = 0x50, 0x51, 0x52, 0x53, 0x56, 0x57, 0x58, 0x59, 0x5a, 0x5b
-	opPUSH1, opPUSH2, opPUSH32, opDUP1, opDUP2, opSWAP1, opSWAP2                                           = 0x60, 0x61, 0x7f, 0x80, 0x81, 0x90, 0x91
-	opRETURN, opREVERT, opINVALID                                                                          = 0xf3, 0xfd, 0xfe
+	opLT, opGT, opSLT, opSGT, opEQ, opISZERO, opAND, opOR, opXOR, opNOT, opBYTE, opSHL, opSHR, opSAR   = 0x10, 0x11, 0x12, 0x13, 0x14, 0x15, 0x16, 0x17, 0x18, 0x19, 0x1a, 0x1b, 0x1c, 0x1d
+	opSHA3                                                                                             = 0x20
+	opCALLDATALOAD, opCALLDATASIZE, opCALLDATACOPY, opCODESIZE, opCODECOPY                             = 0x35, 0x36, 0x37, 0x38, 0x39
+	opRETURNDATASIZE, opRETURNDATACOPY                                                                 = 0x3d, 0x3e
+	opPOP, opMLOAD, opMSTORE, opMSTORE8, opJUMP, opJUMPI, opPC, opMSIZE, opGAS, opJUMPDEST             = 0x50, 0x51, 0x52, 0x53, 0x56, 0x57, 0x58, 0x59, 0x5a, 0x5b
+	opPUSH1, opPUSH2, opPUSH32, opDUP1, opDUP2, opSWAP1, opSWAP2                                       = 0x60, 0x61, 0x7f, 0x80, 0x81, 0x90, 0x91
+	opRETURN, opREVERT, opINVALID                                                                      = 0xf3, 0xfd, 0xfe
 )
 
 // ---- lattices ------------------------------------------------------------------------------------------
